@@ -74,7 +74,7 @@ func (w *World) extractChain(fx *Facts, fn *ssa.Function) (*Chain, error) {
 			cell := fx.ownerCell(recv)
 			if cell == nil || cell.Parent() != fn {
 				// chained call on the returned *Checker (c.WithX(...).WithY(...)) is not an idiom of this repo
-				return nil, fmt.Errorf("%s: checker call %s on a receiver that is not the handler's local Checker", w.InstrPos(c), cal.Name())
+				return nil, fmt.Errorf("%s: checker call %s on a receiver that is not the handler's local Checker", w.InstrPos(c), fnName(cal))
 			}
 			if ch.Checker == nil {
 				ch.Checker = cell
@@ -82,16 +82,16 @@ func (w *World) extractChain(fx *Facts, fn *ssa.Function) (*Chain, error) {
 				return nil, fmt.Errorf("%s: more than one Checker in %s", w.InstrPos(c), w.FuncKey(fn))
 			}
 			switch {
-			case strings.HasPrefix(cal.Name(), "With"):
+			case strings.HasPrefix(fnName(cal), "With"):
 				withs = append(withs, c)
-			case cal.Name() == "CheckFailed":
+			case fnName(cal) == "CheckFailed":
 				if ch.CheckFailed != nil {
 					return nil, fmt.Errorf("%s: CheckFailed called more than once", w.InstrPos(c))
 				}
 				ch.CheckFailed = c
-			case cal.Name() == "StepCount":
+			case fnName(cal) == "StepCount":
 			default:
-				return nil, fmt.Errorf("%s: unknown Checker method %s", w.InstrPos(c), cal.Name())
+				return nil, fmt.Errorf("%s: unknown Checker method %s", w.InstrPos(c), fnName(cal))
 			}
 		}
 	}
@@ -144,7 +144,7 @@ func (w *World) extractChain(fx *Facts, fn *ssa.Function) (*Chain, error) {
 							if recv != ssa.Value(par) {
 								return nil, fmt.Errorf("%s: checker call in helper %s on something other than the checker it was handed", w.InstrPos(ic), w.FuncKey(g))
 							}
-							if !strings.HasPrefix(calleeOf(ic).Name(), "With") {
+							if !strings.HasPrefix(fnName(calleeOf(ic)), "With") {
 								return nil, fmt.Errorf("%s: helper %s does more with the checker than registering steps", w.InstrPos(ic), w.FuncKey(g))
 							}
 							for _, ret := range returnsOf(g) {
@@ -246,7 +246,7 @@ func (w *World) extractChain(fx *Facts, fn *ssa.Function) (*Chain, error) {
 	ch.FailBlock, ch.PassBlock = ifi.Block().Succs[0], ifi.Block().Succs[1]
 	for i, c := range withs {
 		cal := calleeOf(c)
-		st := &Step{Idx: i, Kind: cal.Name(), Call: c, Role: map[string][]*ssa.Function{}, Arg: map[string]ssa.Value{}, Pos: w.InstrPos(c)}
+		st := &Step{Idx: i, Kind: fnName(cal), Call: c, Role: map[string][]*ssa.Function{}, Arg: map[string]ssa.Value{}, Pos: w.InstrPos(c)}
 		for pi, p := range cal.Params {
 			if pi == 0 {
 				continue
@@ -254,14 +254,14 @@ func (w *World) extractChain(fx *Facts, fn *ssa.Function) (*Chain, error) {
 			a := c.Call.Args[pi]
 			// roles are positional (c20roles): what the constructor calls its parameters does not matter
 			pname := p.Name()
-			if rs := c20roles[cal.Name()]; pi < len(rs) {
+			if rs := c20roles[fnName(cal)]; pi < len(rs) {
 				pname = rs[pi]
 			}
 			st.Arg[pname] = a
 			if _, isSig := p.Type().Underlying().(*types.Signature); isSig {
 				tg, ok := fx.funcTargets(a)
 				if !ok || len(tg) == 0 {
-					return nil, fmt.Errorf("%s: closure argument %q of %s cannot be resolved", w.InstrPos(c), pname, cal.Name())
+					return nil, fmt.Errorf("%s: closure argument %q of %s cannot be resolved", w.InstrPos(c), pname, fnName(cal))
 				}
 				st.Role[pname] = tg
 			} else if k, isConst := a.(*ssa.Const); isConst && pname == "valueName" {
@@ -323,6 +323,9 @@ func (ch *Chain) inSuffix(in ssa.Instruction) bool {
 // ---------------------------------------------------------------------------
 
 func (w *World) refClosure(fn *ssa.Function, into map[*ssa.Function]bool) {
+	if g := wrapperImpl[fn]; g != nil {
+		fn = g // a wrapper stands for its implementation
+	}
 	if fn == nil || into[fn] {
 		return
 	}
